@@ -151,16 +151,28 @@ EvXferEnd ==
      Judge(IF tgt = src THEN {} ELSE {"C20"})
   /\ UNCHANGED <<b, g, met, owed, lost, imported, src, known>>
 
+(* a panic inside the code under test, or a store that does not open any more, is an  *)
+(* observation no behaviour of the specification explains                              *)
+EvPanic ==
+  /\ Is("panic")
+  /\ Judge({"C01", "C12"})
+  /\ UNCHANGED <<b, g, met, owed, lost, imported, src, known>>
+
+EvCrash ==
+  /\ Is("crash")
+  /\ Judge({"C01", "C04", "C07", "C12"})
+  /\ UNCHANGED <<b, g, met, owed, lost, imported, src, known>>
+
 (* events of other layers sharing the log are skipped *)
 EvOther ==
   /\ l <= Len(Rec)
   /\ E.e \notin {"reset", "append", "import", "remove", "tick", "read", "get", "head", "dump", "drain",
-                 "reopen", "xfer_begin", "xfer_end"}
+                 "reopen", "xfer_begin", "xfer_end", "panic", "crash"}
   /\ l' = l + 1
   /\ UNCHANGED <<b, g, met, owed, lost, imported, src, bad, known>>
 
 Next == Reset \/ EvAppend \/ EvImport \/ EvRemove \/ EvTick \/ EvRead \/ EvGet \/ EvHead \/ EvDump
-        \/ EvDrain \/ EvReopen \/ EvXferBegin \/ EvXferEnd \/ EvOther
+        \/ EvDrain \/ EvReopen \/ EvXferBegin \/ EvXferEnd \/ EvPanic \/ EvCrash \/ EvOther
 
 Spec == Init /\ [][Next]_tvars
 
